@@ -841,6 +841,12 @@ func (e *Env) call(x *SExpr) Val {
 						var args []Val
 						for k := range x.Args {
 							a := argv(k)
+							if a.K == KConst {
+								// untyped literal: give it the parameter's type
+								if sig, ok := it.Method(i).Type().(*types.Signature); ok && k < sig.Params().Len() {
+									a = vc.convert(e.st, a, sig.Params().At(k).Type(), token.Position{})
+								}
+							}
 							if _, ok := flatten(a); !ok || a.K == KBad || a.T == nil {
 								return e.fail("argument %d of %s is not usable here (%s)", k, name, a.Why)
 							}
